@@ -96,7 +96,7 @@ func newSUT(w *world, start int, specs []peerSpec, seed int64, gated bool) (*sut
 		}
 		return nil
 	}
-	core, logs := observer.New(zapcore.DebugLevel)
+	core, logs := observer.New(zapcore.FatalLevel) // (nothing is kept: a spinning service must not fill the memory)
 	s.logs = logs
 	logger := log.NewZapLoggerWithCore(core)
 	bf := p2psync.NewBlockFetcher(node.BC, s.comp, s.net, chainkit.Network, logger)
